@@ -248,7 +248,7 @@ def record_syscalls(args, tmp, names):
 def c18_faults(rep, tmp, only=None):
     names = ["openat", "ftruncate", "mmap"]
     errs = {"openat": "EMFILE", "ftruncate": "ENOSPC", "mmap": "ENOMEM"}
-    for sizes in (["4096"], ["4096", "8192"], ["12288", "4096", "4096"]):
+    for sizes in (["4096"], ["4096", "8192"], ["12288", "4096", "4096"], ["262144"], ["1048576", "4096"]):
         args = ["mkbuf"] + sizes
         r1, s1 = record_syscalls(args, tmp, names)
         r2, s2 = record_syscalls(args, tmp, names)
